@@ -26,7 +26,11 @@ for m in repo.modules.values():
             if lg:
                 out[keys[q]]['g'] = lg
             out[keys[q]]['n'] = ne
+            ts = alpha.all_tests(f.node)
+            if ts:
+                out[keys[q]]['t'] = sorted(set(ts))
 import hashlib
+out['__funcs__'] = {m.rel(): sorted(alpha.def_table(m.tree, m.name)) for m in repo.modules.values()}
 out['__modules__'] = {m.rel(): hashlib.sha1(m.src.encode()).hexdigest() for m in repo.modules.values()}
 os.makedirs(os.path.join(HERE, 'baseline'), exist_ok=True)
 with gzip.open(alpha.BASEFILE, 'wt') as fh:
